@@ -16,12 +16,14 @@ type CfgDesc struct {
 	CBSet      int    `json:"cb_set"` // bit set of neutral callbacks installed (C17)
 	Post       string `json:"post"`   // name of the post-step oracle
 	NoHeap     bool   `json:"no_heap_check,omitempty"`
+	Digests    bool   `json:"file_digests,omitempty"`
 }
 
 func (d CfgDesc) RunCfg() RunCfg {
 	cfg := RunCfg{FileBacked: d.FileBacked, CmpCB: d.CmpCB, DumpEvery: d.DumpEvery, ReopenDump: d.ReopenDump}
 	cfg.CBSet = d.CBSet
 	cfg.NoHeapCheck = d.NoHeap
+	cfg.Digests = d.Digests
 	if f, ok := postOracles[d.Post]; ok {
 		f(&cfg)
 	}
